@@ -200,3 +200,16 @@ Theorem C09_local_is_source : forall fuel m a b steps ai bi s, covers m a b ->
   ImpGen.imp_align_Local fuel a b m = GoSem.Ret (map ImpProofsD.step_n steps, ai, bi, s).
 Proof. exact ImpProofsF.imp_Local_ok. Qed.
 Print Assumptions C09_local_is_source.
+
+(* The six shipped matrices the theorems above are about (gen/Tables.v, read out of the
+   running implementation) are the map literals of pam120.go ... blosum80.go, as translated
+   from the source: the same score for every pair of bytes. *)
+Theorem C09_shipped_tables_are_source :
+  (exists l, ImpGen.imp_align_init_pam120_0 = GoSem.Ret l /\ ImpProofsD.same_lookups l pam120_tab)
+  /\ (exists l, ImpGen.imp_align_init_pam160_0 = GoSem.Ret l /\ ImpProofsD.same_lookups l pam160_tab)
+  /\ (exists l, ImpGen.imp_align_init_pam250_0 = GoSem.Ret l /\ ImpProofsD.same_lookups l pam250_tab)
+  /\ (exists l, ImpGen.imp_align_init_blosum45_0 = GoSem.Ret l /\ ImpProofsD.same_lookups l blosum45_tab)
+  /\ (exists l, ImpGen.imp_align_init_blosum62_0 = GoSem.Ret l /\ ImpProofsD.same_lookups l blosum62_tab)
+  /\ (exists l, ImpGen.imp_align_init_blosum80_0 = GoSem.Ret l /\ ImpProofsD.same_lookups l blosum80_tab).
+Proof. exact ImpProofsD.imp_init_matrices. Qed.
+Print Assumptions C09_shipped_tables_are_source.
